@@ -62,3 +62,53 @@ package services
 //@   loop 1 invariant rng:  0 <= i && i <= $idx(1) && $idx(1) <= len(list.Items) && len(items) == len(list.Items)
 //@   loop 1 invariant keep: forall k int :: 0 <= k && k < i ==> items[k] != nil && validIngress(c, items[k])
 //@ end
+
+// ---------------------------------------------------------------------------
+// C09 — cross-namespace gate
+
+//@ func buildResourceName
+//@   props C09
+//@   modifies nothing
+//@   ensures gate:     result.2 == nil ==> defaultNamespace == "" || nsOf(resourceName) == "" || allowCrossNamespace || nsOf(resourceName) == defaultNamespace
+//@   ensures ns:       result.2 == nil ==> result.0 == ((nsOf(resourceName) == "" && defaultNamespace != "") ? defaultNamespace : nsOf(resourceName))
+//@   ensures name:     result.2 == nil ==> result.1 == nameOf(resourceName)
+//@   ensures complete: splitOK(resourceName) && (defaultNamespace == "" || nsOf(resourceName) == "" || allowCrossNamespace || nsOf(resourceName) == defaultNamespace) ==> result.2 == nil
+//@ end
+
+// trusted: reads the secret through the client and the certificate cache
+//@ func (*c).getCertificate
+//@   trusted
+//@   modifies c.sslCerts.*
+//@   ensures nonnil: result.1 == nil ==> result.0 != nil
+//@ end
+
+//@ count TrackSecret = (types.Tracker).TrackRefName
+
+// Each getter: the object that is read lives in the reader's namespace unless
+// the key of *that* resource kind allows it; the read is tracked first.
+//@ func (*c).GetTLSSecretPath
+//@   props C09 C15
+//@   requires cfg: c.dynconfig != nil
+//@   at call getCertificate#1 assert own-bit: defaultNamespace == "" || $arg1 == defaultNamespace || c.dynconfig.CrossNamespaceSecretCertificate
+//@   at call getCertificate#1 assert tracked: calls(TrackSecret) == 1
+//@ end
+
+//@ func (*c).GetCASecretPath
+//@   props C09
+//@   requires cfg: c.dynconfig != nil
+//@   at call getCertificate#1 assert own-bit: defaultNamespace == "" || $arg1 == defaultNamespace || c.dynconfig.CrossNamespaceSecretCA
+//@   at call getCertificate#1 assert tracked: calls(TrackSecret) == 1
+//@ end
+
+//@ func (*c).GetPasswdSecretContent
+//@   props C09
+//@   requires cfg: c.dynconfig != nil
+//@   at call Get#1 assert own-bit: defaultNamespace == "" || $arg2.Namespace == defaultNamespace || c.dynconfig.CrossNamespaceSecretPasswd
+//@   at call Get#1 assert tracked: calls(TrackSecret) == 1
+//@ end
+
+//@ func (*c).GetService
+//@   props C09
+//@   requires cfg: c.dynconfig != nil
+//@   at call Get#1 assert own-bit: defaultNamespace == "" || $arg2.Namespace == defaultNamespace || c.dynconfig.CrossNamespaceServices
+//@ end
